@@ -186,6 +186,17 @@ def correspondence(ctx, broken_obligations=()):
     cases = gen_cases(ctx)
     cov = diff.differential(ctx, "symtab", cases, oracle=oracle, known=known, shrinker=shrinker,
                             nontrivial=nontrivial)
+    # look-ups under lock contention: the same random sequences through engine symtabc (every query runs while other
+    # threads hold the mutexes of the enclosing scopes for a few milliseconds); the model is the sequential one: a
+    # busy enclosing scope makes a look-up WAIT, it never changes the answer
+    rnd = [c for c in cases if not c.startswith("1;") and len(c) < 400]
+    crng = random.Random(ctx.seed + 18)
+    ccases = crng.sample(rnd, min(len(rnd), 800 if ctx.quick else 8000))
+    covc = diff.differential(ctx, "symtabc", ccases, model_engine="symtab", oracle=oracle, known=known, shrinker=shrinker,
+                             nontrivial=nontrivial)
+    cov["contended"] = {"programs": covc["programs"], "disagreements_checked": covc["disagreements_checked"],
+                        "oracle_failures": covc["oracle_failures"],
+                        "rule": "random op sequences over chains of 2..3 scopes; every query while each enclosing scope's mutex is held by another thread"}
     cov["rule"] = ("all insertion sequences over 6 spellings (3 names x 2 casings) x scopes of a chain of n scopes, "
                    "n=1..3, up to length %s, each followed by every query on every scope and name; plus random "
                    "sequences of 6..40 mixed ops; non-trivial = some name (ignoring case) inserted at least twice"
@@ -198,7 +209,7 @@ def correspondence(ctx, broken_obligations=()):
 def replay(ctx, rep):
     case = rep["case"]
     hb = diff.Engines.harness()
-    out = core.run_lines(hb, "symtab", [case], shards=1)[0]
+    out = core.run_lines(hb, rep.get("engine", "symtab"), [case], shards=1)[0]
     r = oracle(case, out)
     print("case:", case); print("implementation:", out); print("oracle:", r or "property holds on this case")
     if r:
